@@ -1,3 +1,4 @@
+import os.path
 import re
 import stat
 
@@ -60,6 +61,12 @@ class BuckGophermapHandler(BaseHandler):
         self.entries = []
 
         selectorbase = self.selectorbase
+        if selector == self.getselector():
+            # Relative links in a gophermap *file* are relative to the
+            # directory the file is in, not to the file.
+            selectorbase = os.path.dirname(selector)
+            if selectorbase == "/":
+                selectorbase = ""
 
         with self.vfs.open(selector, "rb") as rfile:
             while True:
